@@ -42,7 +42,7 @@ RULE = ("apply stream: random reactant molecules/forests/unions of molecules (1-
         "asymmetric single-bonded reactants (hetero-terminated chains, branched skeletons, substituted rings) with rules on a "
         "carbon path that only change/break existing bonds (broken bond next to a changed bond), so that non-equivalent "
         "embeddings give results differing only in which existing bond is changed; "
-        "rules that match nowhere; every case is run for unique x connected_only x n in {None,0,1,2,large,-1}; "
+        "rules that match nowhere; dimer family: 2-3 copies of a chain X-(C)k-Y with a rule of two separate components X<0,1>Y, where results that close each chain onto itself (disconnected) and results that join the chains into one macrocycle (connected) share a WL digest, so unique and connected_only interact; every case is run for unique x connected_only x n in {None,0,1,2,large,-1}; "
         "gml stream: random DPO rules printed in the MOD GML format and malformed variants (missing/reordered/renamed sections, "
         "bad labels, nodes outside the context, context edges, trailing lines); non-trivial = at least one embedding and one "
         "changed bond, or a GML text that parses; distinct = distinct (reactant, rule) / distinct text")
@@ -406,6 +406,11 @@ def generate(seed, tier, ncases=None):
                 text += " "
             yield {"kind": "gml", "text": text, "tag": tag, "desc": desc}
             continue
+        if rng.random() < 0.06:
+            g, rc, gk = _dimer_case(rng)
+            g, scheme, _ = gens.reid(rng, g)
+            yield {"kind": "apply", "g": g, "rc": rc, "gk": gk, "scheme": scheme, "nowhere": False}
+            continue
         if rng.random() < 0.16:
             g, rc, gk = _asym_case(rng)
             g, scheme, _ = gens.reid(rng, g)
@@ -419,6 +424,34 @@ def generate(seed, tier, ncases=None):
             if _count_monos(g, rc) <= MAX_MONOS:
                 break
         yield {"kind": "apply", "g": g, "rc": rc, "gk": gk, "scheme": scheme, "nowhere": nowhere}
+
+
+def _dimer_case(rng):
+    """Two (or three) copies of a short chain X-(C)k-Y with X != Y as ONE reactant graph and a rule made of as many
+    separate components X<0,1>Y: some embeddings close every chain onto itself (a DISCONNECTED result: small rings),
+    others join the chains head to tail (a CONNECTED macrocycle). Rings of 3+k and of 2(3+k) atoms with the same
+    local neighbourhoods have the same 3-round WL digest, so `unique` and `connected_only` interact: the class must be
+    represented by a result that passes the filter, whichever embedding VF2 reports first."""
+    x, y = rng.sample(["N", "O", "S", "Cl", "C"], 2)
+    if "C" in (x, y):
+        x, y = ("N", "O")
+    k = rng.choice([1, 1, 2, 3])
+    copies = rng.choice([2, 2, 2, 3]) if k == 1 else 2
+    g = nx.Graph()
+    nid = 0
+    for _ in range(copies):
+        chain = [x] + ["C"] * k + [y]
+        for j, sym in enumerate(chain):
+            g.add_node(nid + j, symbol=sym)
+            if j:
+                g.add_edge(nid + j - 1, nid + j, bond=1)
+        nid += len(chain)
+    rc = nx.Graph()
+    for c in range(2):
+        rc.add_node(2 * c, symbol=x)
+        rc.add_node(2 * c + 1, symbol=y)
+        rc.add_edge(2 * c, 2 * c + 1, bond=(0, 1))
+    return g, rc, "dimer:%s%s%s x%d" % (x, "C" * k, y, copies)
 
 
 def _count_monos(g, rc):
@@ -468,6 +501,10 @@ def corpus():
     ringo = _g([(0, "C"), (1, "C"), (2, "C"), (3, "O")], [(0, 1, 1), (1, 2, 1), (2, 0, 1), (2, 3, 1)])             # C1CC1O
     ropen = _g([(0, "C"), (1, "C")], [(0, 1, (1, 0))])                                                            # C<1,0>C
     yield {"kind": "apply", "g": ringo, "rc": ropen, "gk": "corpus:wl_C1CC1O", "scheme": "corpus", "nowhere": False}
+    # NCO.NCO with N<0,1>O.N<0,1>O: two 3-rings (disconnected) and one 6-ring (connected) share a WL digest
+    dim = _g([(0, "N"), (1, "C"), (2, "O"), (3, "N"), (4, "C"), (5, "O")], [(0, 1, 1), (1, 2, 1), (3, 4, 1), (4, 5, 1)])
+    rdim = _g([(0, "N"), (1, "O"), (2, "N"), (3, "O")], [(0, 1, (0, 1)), (2, 3, (0, 1))])
+    yield {"kind": "apply", "g": dim, "rc": rdim, "gk": "corpus:wl_dimer_NCO", "scheme": "corpus", "nowhere": False}
     # empty rule / empty reactant (null graph: nx.is_connected raises)
     yield {"kind": "apply", "g": nx.Graph(), "rc": nx.Graph(), "gk": "corpus:null", "scheme": "corpus", "nowhere": False}
     yield {"kind": "apply", "g": cp, "rc": nx.Graph(), "gk": "corpus:emptyrule", "scheme": "corpus", "nowhere": False}
